@@ -125,6 +125,20 @@ PROBES = [
     ("pre:panic", F('defer println("after")\npanic("boom")', '押后 输出("after")\n崩溃("boom")')),
     ("pre:complex", F("c := complex(1, 2)\nprintln(real(c), imag(c))", "c := 复数(1, 2)\n输出(实部(c), 虚部(c))")),
     ("pre:error", F('e: error = nil\nif e == nil {\n\tprintln(1)\n}', '设定 e: 错误 = 空\n如果 e == 空:\n\t输出(1)\n完毕')),
+    ("pre:variadic", F("s := []int{1, 2}\ns = append(s, s...)\nprintln(sum(s...), sum(), sum(1, 2))", "s := []整型{1, 2}\ns = 追加(s, s...)\n输出(sum(s...), sum(), sum(1, 2))",
+                     "func sum(xs: ...int) => int {\n\tn := 0\n\tfor _, x := range xs {\n\t\tn += x\n\t}\n\treturn n\n}\n\n",
+                     "函数 sum(xs: ...整型) => 整型:\n\tn := 0\n\t循环 _, x := 迭代 xs:\n\t\tn += x\n\t完毕\n\t返回 n\n完毕\n\n")),
+    ("shape:embedded-struct", F("c := C{}\nc.x = 4\nc.B.y = 5\nprintln(c.x, c.y, c.get())", "c := C{}\nc.x = 4\nc.B.y = 5\n输出(c.x, c.y, c.get())",
+                              "type B :struct {\n\tx: int\n\ty: int\n}\n\nfunc B.get() => int {\n\treturn this.x + this.y\n}\n\ntype C :struct {\n\tB\n\tz: int\n}\n\n",
+                              "结构 B:\n\tx: 整型\n\ty: 整型\n完毕\n\n函数 B.get() => 整型:\n\t返回 我的.x + 我的.y\n完毕\n\n结构 C:\n\tB\n\tz: 整型\n完毕\n\n")),
+    ("shape:multi-var-array-slice3", F("a, b: int = 1, 2\narr: [4]int\narr[2] = a + b\nt := arr[1:3:4]\nprintln(len(t), cap(t), t[1])", "设定 a, b: 整型 = 1, 2\n设定 arr: [4]整型\narr[2] = a + b\nt := arr[1:3:4]\n输出(长度(t), 容量(t), t[1])")),
+    ("shape:func-value-and-closure", F("n := 0\ninc := func() {\n\tn++\n}\ninc()\ninc()\nprintln(apply(dbl, n))", "n := 0\ninc := 函数():\n\tn++\n完毕\ninc()\ninc()\n输出(apply(dbl, n))",
+                                     "func dbl(a: int) => int {\n\treturn a * 2\n}\n\nfunc apply(f: func(a: int) => int, v: int) => int {\n\treturn f(v)\n}\n\n",
+                                     "函数 dbl(a: 整型) => 整型:\n\t返回 a * 2\n完毕\n\n函数 apply(f: 函数(a: 整型) => 整型, v: 整型) => 整型:\n\t返回 f(v)\n完毕\n\n")),
+    ("shape:type-assert", F('x: any = 5\nn, ok := x.(int)\ns, ok2 := x.(string)\nif ok && !ok2 {\n\tprintln(n, len(s))\n}', '设定 x: 皮囊 = 5\nn, ok := x.(整型)\ns, ok2 := x.(字串)\n如果 ok && !ok2:\n\t输出(n, 长度(s))\n完毕')),
+    ("shape:init-func", F("println(g)", "输出(g)", "global g: int\n\nfunc init {\n\tg = 9\n}\n\n", "全局 g: 整型\n\n函数 准备:\n\tg = 9\n完毕\n\n")),
+    ("shape:error-method", F('e := &E{}\nerr: error = e\nprintln(err.Error())', 'e := &E{}\n设定 err: 错误 = e\n输出(err.报错信息())',
+                            'type E :struct {\n\tc: int\n}\n\nfunc E.Error() => string {\n\treturn "E!"\n}\n\n', '结构 E:\n\tc: 整型\n完毕\n\n函数 E.报错信息() => 字串:\n\t返回 "E!"\n完毕\n\n')),
     ("sel:fullwidth", F("p := P{x: 3}\nprintln(p.x, p.get())", "p := P{x: 3}\n输出(p·x, p·get())",
                       "type P :struct {\n\tx: int\n}\n\nfunc P.get() => int {\n\treturn this.x\n}\n\n", "结构·P:\n\tx: 整型\n完毕\n\n函数·P·get() => 整型:\n\t返回 我的·x\n完毕\n\n")),
 ]
@@ -202,7 +216,7 @@ def run(ctx):
     # ---- 4. programs
     rng = ctx.rng
     quick = ctx.tier == "quick"
-    n_prog = 14 if quick else 160
+    n_prog = 30 if quick else 240
     n_ill = 1 if quick else 6           # well-typed base programs, each mutated by every ILL entry
     cases = []                           # dict(kind, key, wa, wz, features)
     for key, (wa, wz) in PROBES:
